@@ -178,6 +178,20 @@ ADDENDA4 = {
             "; precedence SystemComplexError > SystemError > Code() > Status() as in Error(); Cause() is not consulted"),
 }
 
+# round 5 (a second instance, two entry points for one operation, state that matters for the operation after the next)
+ADDENDA5 = {
+    "C01": ("; assumption NoSharedState of the one-session model tested by a -race stage `pair`: seeded pairs of TLC-generated behaviours replayed concurrently in one process, turns changing at every transport read",
+            "; two sessions of one process do not interfere (a sample of pairs)", ""),
+    "C03": ("", "; payloads of messages returned by ReadMessage / ExpectMessage are held and must survive later reads", ""),
+    "C13": ("; control messages written through every entry point (WriteControl, WriteMessage, NextWriter+Write+Close, control-type prepared message)",
+            "; in the multi-message writer sessions the pings and the close frame go through each entry point for control messages, crossed with role and compression: control frames on the wire are uncompressed and the peer reads every data message", ""),
+    "C15": ("; Close frame sent by the data writer through the message API (WriteMessage / NextWriter / prepared), the writer continuing with every entry point incl. WritePreparedMessage after a failed call",
+            "; after a Close sent through the message API every later call of every process fails with close-sent, without a panic, and nothing reaches the wire", ""),
+    "C16": ("; JoseProd.tla: one Encrypter / Signer producing a sequence of objects with per-message header parameters (ProdRoundTrip / ProdOnlyRight / ProdIndependent; deviation producer-header-cached)",
+            "; every producer configuration makes every sequence of 2-3 objects with SetCompression switched between them; each object, serialized at once and again later, opens only with a party's key and to its own payload",
+            "; producers are not used concurrently"),
+}
+
 NOT_YET = "check not built yet in this revision of /verif (work in progress; see DESIGN.md section 5)"
 
 
@@ -199,6 +213,8 @@ def main():
             tech, text, note = tech + ADDENDA[pid][0], text + ADDENDA[pid][1], note + ADDENDA[pid][2]
         if pid in ADDENDA4:
             tech, text, note = tech + ADDENDA4[pid][0], text + ADDENDA4[pid][1], note + ADDENDA4[pid][2]
+        if pid in ADDENDA5:
+            tech, text, note = tech + ADDENDA5[pid][0], text + ADDENDA5[pid][1], note + ADDENDA5[pid][2]
         checks.append({
             "property_id": pid,
             "quick_cmd": "./vcheck %s --tier quick" % pid,
